@@ -235,6 +235,8 @@ namespace vf::rt {
     inline void hook_cb(int site, void const* obj, std::uint64_t a, std::uint64_t b)
     {
         Globals& g = G();
+        // (the spinlock site is very hot: it is only looked at when a perturbation plan names it)
+        if (site == vf::S_SPINLOCK_LOCK) { if (!g.plan.empty()) do_perturb(site); return; }
         if (site > 0 && site < vf::site_max) g.site_hits[site].fetch_add(1, std::memory_order_relaxed);
         if (g.rec)
         {
